@@ -42,18 +42,18 @@ theorem bounds_table :
 /-- The tie of that table to the source: `Generated.intBounds` / `uintBounds` are
 re-extracted from the `switch target.Type().Bits()` of `fromCtyNumberInt` /
 `fromCtyNumberUInt` in cty/gocty/out.go on every check (a changed bound, a new or
-removed case, or a changed range test makes this theorem fail to check).  Every
-row of the source is a row of the model's table with the same bounds, the model
-panics ("weird number of bits") exactly where the source has no case, and the
-refusal tests are the ones `fromNumInt` / `fromNumUInt` transliterate. -/
+removed case makes this theorem fail to check).  Every
+row of the source is a row of the model's table with the same bounds, and the model
+panics ("weird number of bits") exactly where the source has no case.  (The refusal
+tests themselves are no longer compared as TEXT — a renamed local broke that tie
+without a change of meaning: they are part of the translated definitions, see
+`generated_decoders_eq` below.) -/
 theorem bounds_table_is_source :
     Generated.intBounds.map (fun r => (r.1, intMinMax r.1)) = Generated.intBounds.map (fun r => (r.1, some r.2)) ∧
     Generated.uintBounds.map (fun r => (r.1, uintMax r.1)) = Generated.uintBounds.map (fun r => (r.1, some r.2)) ∧
     (∀ b, b ∉ Generated.intBounds.map (·.1) → intMinMax b = none) ∧
-    (∀ b, b ∉ Generated.uintBounds.map (·.1) → uintMax b = none) ∧
-    Generated.intRangeTest = "accuracy != big.Exact || iv < min || iv > max" ∧
-    Generated.uintRangeTest = "accuracy != big.Exact || !bf.IsInt() || iv > max" := by
-  refine ⟨by decide, by decide, fun b hb => ?_, fun b hb => ?_, by decide, by decide⟩
+    (∀ b, b ∉ Generated.uintBounds.map (·.1) → uintMax b = none) := by
+  refine ⟨by decide, by decide, fun b hb => ?_, fun b hb => ?_⟩
   · have h : Generated.intBounds.map (·.1) = [8, 16, 32, 64] := by decide
     rw [h] at hb
     unfold intMinMax
